@@ -4,7 +4,10 @@ test server and its key store file. All values are spelled canonically (duration
 ordinary override fragments every overridable key has a zero-valued fragment (`""`, `[]`, `{}`, `0s`, `false`: ZERO)
 and every type a few fragments whose *values* its decoder / validator rejects (BAD; such operations carry
 `invalid: true`, the model takes the rejection as given and the run checks that nothing was changed by the failed
-attempt)."""
+attempt).  Two families of histories on one factory come on top: look-alike overrides (LOOKALIKE: configs that print
+alike but differ in type / structure) and named templates (NT_SITES: template texts that declare and use
+`define` / `block` / `template` with the same name defined differently in prototype, overrides and other mechanisms),
+each with a grid (`lookalike_grid`, `named_grid`) for the targeted search."""
 
 SRV = "http://SERVER"
 
@@ -522,6 +525,181 @@ def lookalike_grid(rng):
             for members in seqs:
                 e, _, reqg = gen_entry(rng, kind, typ, 0)
                 cases.append({"fam": "mech", "catalogue": [e], "ops": lookalike_ops(e, members, reqg, rng)})
+    return cases
+
+
+# ---------------------------------------------------------------------------------------------------------------
+# named templates: template texts that DECLARE and USE named templates (`{{ define "x" }}…{{ end }}`,
+# `{{ block "x" . }}…{{ end }}`, `{{ template "x" . }}`).  text/template keeps them per template set; heimdall builds a
+# set per template, so a name means what the template's own text says.  The histories below give the SAME name
+# different definitions in the catalogue prototype, in rule-level overrides and in different mechanisms of one
+# process, create them in both orders and execute every earlier object after every creation: each object has to
+# render its own text (prototype overlaid with its own override) every time.
+
+NT_NAMES = ["scope", "nt", "who"]
+NT_MARKERS = ["read", "admin", "orders", "payments", "m5", "m6", "m7"]
+NT_FORMS = ["define", "define", "block", "nested", "nodot", "use"]
+
+
+def named_text(name, marker, field=None, form="define"):
+    """a template text of the named-template fragment; `marker` tells the definitions of one name apart"""
+    body = marker + ("-{{ .%s }}" % field if field and form != "nodot" else "")
+    if form == "define":
+        return '{{ define "%s" }}%s{{ end }}pre-{{ template "%s" . }}-post' % (name, body, name)
+    if form == "block":
+        return 'pre-{{ block "%s" . }}%s{{ end }}-post' % (name, body)
+    if form == "nested":
+        return ('{{ define "%s" }}%s:{{ template "%s-in" . }}{{ end }}{{ define "%s-in" }}in-%s{{ end }}pre-{{ template "%s" . }}-post'
+                % (name, body, name, name, marker, name))
+    if form == "nodot":
+        return '{{define "%s"}}%s{{end}}pre-{{template "%s"}}-post' % (name, body, name)
+    if form == "use":   # uses a name it does not define: alone, the execution fails
+        return 'pre-{{ template "%s" . }}-post' % name
+    raise ValueError(form)
+
+
+def _set(cfg, path, value):
+    for k in path[:-1]:
+        cfg = cfg.setdefault(k, {})
+    cfg[path[-1]] = value
+
+
+def _claims(t):
+    return '{"nt": "' + t + '"}'
+
+
+def _ident(t):
+    return t
+
+
+# (kind, type) -> sites: (name, path of the key, overridable on the rule level, field the text may use, wrapper,
+#                         settings the catalogue entry needs for the rendering to show in the answer)
+NT_SITES = {
+    ("finalizer", "header"): [("headers", ["headers", "X-NT"], True, "Subject.ID", _ident, {})],
+    ("finalizer", "cookie"): [("cookies", ["cookies", "nt"], True, "Subject.ID", _ident, {})],
+    ("finalizer", "jwt"): [("claims", ["claims"], True, "Subject.ID", _claims, {})],
+    ("contextualizer", "generic"): [
+        ("payload", ["payload"], True, "Subject.ID", _ident, {}),
+        ("values", ["values", "a"], True, "Request.Method", _ident, {"payload": "v={{ .Values.a }};"}),
+        ("endpoint-header", ["endpoint", "headers", "X-NT"], False, "Subject.ID", _ident, {})],
+    ("authorizer", "remote"): [
+        ("payload", ["payload"], True, "Subject.ID", _ident, {}),
+        ("values", ["values", "a"], True, "Request.Method", _ident, {"payload": "v={{ .Values.a }};"}),
+        ("endpoint-header", ["endpoint", "headers", "X-NT"], False, "Subject.ID", _ident, {})],
+    ("authenticator", "generic"): [
+        ("payload", ["payload"], False, None, _ident, {}),
+        ("endpoint-header", ["identity_info_endpoint", "headers", "X-NT"], False, None, _ident, {})],
+    ("error_handler", "redirect"): [("to", ["to"], False, "Request.Method", lambda t: "http://login.test/" + t, {})],
+}
+NT_WEIGHTS = {("finalizer", "header"): 3, ("contextualizer", "generic"): 4, ("authorizer", "remote"): 3,
+              ("finalizer", "jwt"): 2, ("finalizer", "cookie"): 2, ("authenticator", "generic"): 1,
+              ("error_handler", "redirect"): 1}
+
+
+def named_entry(rng, kind, typ, idx, site, text):
+    """a catalogue entry of the type whose template at `site` is `text` (None: the entry as generated), and a request
+    under which the execution gets as far as rendering"""
+    e, _, _ = gen_entry(rng, kind, typ, idx)
+    cfg = e["config"]
+    _, path, _, _, wrap, needs = site
+    if (kind, typ) in (("contextualizer", "generic"), ("authorizer", "remote")):
+        # nothing that ends the execution before / hides what was rendered
+        cfg.pop("expressions", None)
+        cfg["endpoint"]["method"] = "POST"
+    if text is not None:
+        for k, v in needs.items():
+            cfg[k] = v
+        if path[0] in ("headers", "cookies"):
+            # one entry only: a finalizer that fails half-way has set the entries rendered before (map order)
+            cfg[path[0]] = {}
+        _set(cfg, path, wrap(text))
+    req = {"method": "GET", "path": "/x", "headers": {"Authorization": "tok1", "X-User": "u7", "X-A": "1"},
+           "cookies": {"sid": "s9", "c1": "v1"}, "sub": {"id": "u2", "attrs": {"role": "admin"}}}
+    return e, req
+
+
+def named_override(site, text):
+    _, path, _, _, wrap, needs = site
+    conf = {}
+    for k, v in needs.items():
+        if k != path[0]:
+            conf[k] = v
+    _set(conf, path, wrap(text))
+    return conf
+
+
+def named_ops(plan, reqs):
+    """plan: creations [(entry, config or None, invalid)]; after every creation each object handed out so far is
+    executed (always with the same request per catalogue entry)"""
+    ops, live = [], []
+    for h, (e, conf, invalid) in enumerate(plan):
+        op = {"op": "create", "kind": e["kind"], "id": e["id"], "config": copy_of(conf)}
+        if invalid:
+            op["invalid"] = True
+        ops.append(op)
+        if not invalid:
+            live.append((h, e))
+        for hh, ee in live:
+            ops.append({"op": "exec", "h": hh, "req": copy_of(reqs[ee["id"]])})
+    return ops
+
+
+def gen_named_case(rng):
+    """one or two catalogue entries with template sites, the SAME template name defined differently in the catalogue
+    prototype(s) and in 1-3 rule-level overrides (where the site can be overridden), created in a random order;
+    after each creation every earlier object is executed again"""
+    keys = list(NT_SITES)
+    name = pick(rng, NT_NAMES)
+    markers = list(NT_MARKERS)
+    rng.shuffle(markers)
+    entries, reqs, plan = [], {}, []
+    n_entries = rng.choice([1, 1, 2])
+    for idx in range(n_entries):
+        kind, typ = rng.choices(keys, [NT_WEIGHTS[k] for k in keys])[0]
+        site = pick(rng, NT_SITES[(kind, typ)])
+        form = pick(rng, NT_FORMS)
+        in_cat = maybe(rng, 0.75) or not site[2]
+        text = named_text(name, markers.pop(), site[3], form) if in_cat else None
+        e, req = named_entry(rng, kind, typ, idx, site, text)
+        entries.append(e)
+        reqs[e["id"]] = req
+        plan.append((e, None, False))
+        if site[2]:
+            for _ in range(rng.choice([1, 2, 2, 3]) if n_entries == 1 else rng.choice([0, 1, 2])):
+                q = rng.random()
+                if q < 0.08:   # the same name twice in one text: refused by the parser
+                    t = named_text(name, "dup", None, "define") + '{{ define "%s" }}again{{ end }}' % name
+                    plan.append((e, named_override(site, t), True))
+                else:
+                    plan.append((e, named_override(site, named_text(name, markers.pop(), site[3], pick(rng, NT_FORMS))),
+                                 False))
+    rng.shuffle(plan)
+    return {"fam": "mech", "catalogue": entries, "ops": named_ops(plan, reqs)}
+
+
+def named_grid(rng):
+    """every site x form x history shape: prototype then override, override then prototype, two overrides in both
+    orders (sites a rule can override); two mechanisms of one process in both orders (all sites) - the histories
+    tried when the extractor reports new package-level state in the packages templates are built from"""
+    cases = []
+    for (kind, typ), sites in NT_SITES.items():
+        for site in sites:
+            for form in ["define", "block", "nested", "nodot", "use"]:
+                def text(marker, f=form):
+                    return named_text("scope", marker, site[3], f)
+                shapes = []
+                e0, req = named_entry(rng, kind, typ, 0, site, text("read"))
+                if site[2]:
+                    o1 = named_override(site, text("admin", "define" if form == "use" else form))
+                    o2 = named_override(site, text("orders"))
+                    shapes += [([e0], [(e0, None, False), (e0, o1, False)]), ([e0], [(e0, o1, False), (e0, None, False)]),
+                               ([e0], [(e0, o1, False), (e0, o2, False)]), ([e0], [(e0, o2, False), (e0, o1, False)])]
+                e1, _ = named_entry(rng, kind, typ, 1, site, text("payments", "define" if form == "use" else form))
+                shapes += [([e0, e1], [(e0, None, False), (e1, None, False)]),
+                           ([e1, e0], [(e1, None, False), (e0, None, False)])]
+                for cat, plan in shapes:
+                    cases.append({"fam": "mech", "catalogue": copy_of(cat),
+                                  "ops": named_ops(plan, {e["id"]: req for e in cat})})
     return cases
 
 
